@@ -180,7 +180,7 @@ def _operator_tables(P, R):
 
 # ------------------------------------------------------------------------------------------------ c
 def _precedence(P, R):
-    f = P.one(GP + "::parse_when_clause")
+    f = A.delegate_target(P, P.one(GP + "::parse_when_clause"))
     splits = [c for c in f.calls() if c.resolved == GP + "::split_logical_operator" and c.bb in f.normal_blocks()]
     byop = {}
     for c in splits:
